@@ -191,6 +191,10 @@ var templates = []tmpl{
 	{class: "jwtmac", name: "HS256", t: jwt.HS256Template},
 	{class: "jwtsig", name: "ES256", t: jwt.ES256Template},
 	{class: "jwtsig", name: "RawES384", t: jwt.RawES384Template},
+	{class: "fallback", name: "fallback-SYMMETRIC"},
+	{class: "fallback", name: "fallback-PRIVATE"},
+	{class: "fallback", name: "fallback-PUBLIC"},
+	{class: "fallback", name: "fallback-REMOTE"},
 	{class: "prf", name: "HKDFSHA256PRF-salt", p: hkdfSaltParams},
 	{class: "sig", name: "MLDSA65", p: func() (key.Parameters, error) { return mldsa.NewParameters(mldsa.MLDSA65, mldsa.VariantTink) }},
 	{class: "sig", name: "SLHDSA-SHA2-128s", p: func() (key.Parameters, error) {
@@ -206,10 +210,31 @@ var (
 	handles = map[string]*keyset.Handle{}
 )
 
+// fallbackHandle: a key of a type url nobody registered (kept as a fallback
+// proto key by the handle), with the given key material type.
+func fallbackHandle(material tinkpb.KeyData_KeyMaterialType) (*keyset.Handle, error) {
+	ks := &tinkpb.Keyset{PrimaryKeyId: 77, Key: []*tinkpb.Keyset_Key{
+		{KeyId: 77, Status: tinkpb.KeyStatusType_ENABLED, OutputPrefixType: tinkpb.OutputPrefixType_TINK,
+			KeyData: &tinkpb.KeyData{TypeUrl: "type.googleapis.com/verif.c19.UnknownType", Value: []byte("unknown key type: opaque key bytes 0123456789"), KeyMaterialType: material}},
+		{KeyId: 78, Status: tinkpb.KeyStatusType_ENABLED, OutputPrefixType: tinkpb.OutputPrefixType_RAW,
+			KeyData: &tinkpb.KeyData{TypeUrl: "type.googleapis.com/verif.c19.UnknownType2", Value: []byte("second opaque key"), KeyMaterialType: material}}}}
+	return insecurecleartextkeyset.Read(&keyset.MemReaderWriter{Keyset: ks})
+}
+
 func handleFor(t tmpl) *keyset.Handle {
 	hmu.Lock()
 	defer hmu.Unlock()
 	if h, ok := handles[t.name]; ok {
+		return h
+	}
+	if t.class == "fallback" {
+		m := map[string]tinkpb.KeyData_KeyMaterialType{"fallback-SYMMETRIC": tinkpb.KeyData_SYMMETRIC, "fallback-PRIVATE": tinkpb.KeyData_ASYMMETRIC_PRIVATE,
+			"fallback-PUBLIC": tinkpb.KeyData_ASYMMETRIC_PUBLIC, "fallback-REMOTE": tinkpb.KeyData_REMOTE}[t.name]
+		h, err := fallbackHandle(m)
+		if err != nil {
+			panic(fmt.Sprintf("template %s: %v", t.name, err))
+		}
+		handles[t.name] = h
 		return h
 	}
 	var h *keyset.Handle
@@ -335,8 +360,8 @@ func opPrimitive(name string, r *hx.Rng) string {
 				return
 			}
 			v = append(v, checkStream(p, m, ad)...)
-		case "jwtmac", "jwtsig":
-			// JWT APIs take strings; nothing to guard
+		case "jwtmac", "jwtsig", "fallback":
+			// JWT APIs take strings; fallback keys have no primitive: nothing to guard
 		}
 	})
 	return v.result()
